@@ -62,11 +62,12 @@ pub struct Ctx<'a> {
     pub last_imgck_hash: u64,
     pub last_reopen_hash: u64,
     pub res_hashes: Vec<u64>,
+    pub full_hashes: Vec<u64>,
 }
 
 impl<'a> Ctx<'a> {
     pub fn new(flags: &'a Flags, known: &'a BTreeSet<String>) -> Ctx<'a> {
-        Ctx { flags, known, out: Outcome::default(), lens: vec![], stop: false, last_imgck_hash: 0, last_reopen_hash: 0, res_hashes: vec![] }
+        Ctx { flags, known, out: Outcome::default(), lens: vec![], stop: false, last_imgck_hash: 0, last_reopen_hash: 0, res_hashes: vec![], full_hashes: vec![] }
     }
 
     /// Report a violation.  Returns true if it is a *known finding*.
@@ -104,6 +105,16 @@ impl<'a> Ctx<'a> {
 /// Build the initial world for a case.
 pub fn setup(case: &Case, flags: &Flags) -> Result<World, String> {
     let mut w = setup_inner(case, flags)?;
+    w.model.relaxed_order = flags.relaxed_order;
+    Ok(w)
+}
+
+/// Like `setup` for `Init::Empty`, but on a disk prepared by the caller.
+pub fn setup_on(case: &Case, flags: &Flags, disk: SimDisk) -> Result<World, String> {
+    crate::driver::set_clock(crate::ops::T { secs: 1_600_000_000, nanos: 0 });
+    let mut lib = Lib::create_cfg(disk, case.version, case.bufsize).map_err(|r| format!("create failed: {}", r.brief()))?;
+    lib.budget_base = flags.budget_base;
+    let mut w = World { lib, model: Model::new(case.version) };
     w.model.relaxed_order = flags.relaxed_order;
     Ok(w)
 }
@@ -435,9 +446,31 @@ pub fn run_ops(w: &mut World, ops: &[Op], start: usize, ctx: &mut Ctx) {
                 // counts of plain read/write/fill_buf are a relation: record only what must be equal
                 (Res::Bytes(_), Op::HRead { .. }) | (Res::Bytes(_), Op::HFillBuf { .. }) | (Res::Num(_), Op::HWrite { .. }) => h.write(b"rel"),
                 (Res::Err(k, _), _) => h.write(format!("{:?}", k).as_bytes()),
+                (Res::Listing(_), _) | (Res::Entry(_), _) => {
+                    // the committed length of a stream with unflushed handle data is
+                    // legitimately configuration dependent: mask it
+                    let dirty = w.model.dirty_paths();
+                    let mask = |e: &crate::ops::EntryInfo| {
+                        let mut e = e.clone();
+                        // (the root's len is the mini-stream container size: never judged)
+                        if e.is_root || dirty.iter().any(|d| d.eq_ignore_ascii_case(&e.path) || *d == e.path) {
+                            e.len = 0;
+                        }
+                        e
+                    };
+                    let masked = match &got {
+                        Res::Listing(l) => Res::Listing(l.iter().map(mask).collect()),
+                        Res::Entry(e) => Res::Entry(mask(e)),
+                        _ => unreachable!(),
+                    };
+                    masked.hash_into(&mut h)
+                }
                 _ => got.hash_into(&mut h),
             }
             ctx.res_hashes.push(h.finish());
+            let mut f = crate::prng::Fnv::new();
+            got.hash_into(&mut f);
+            ctx.full_hashes.push(f.finish());
         }
         if let Res::Panic(p) = &got {
             ctx.report("panic", &normalise_site(p), format!("step {} {}: {}", i, op.to_json(), p), i, true);
